@@ -129,19 +129,6 @@ theorem div_two_form (a : Nat) (ha : Finite a) :
       _ = (m1:ℝ) * (2:ℝ) ^ e1 / 2 := by rw [h35]; ring
   rw [this]; ring
 
-theorem abs_wf (a : Nat) (ha : WF a) : WF (F32.abs a) := by
-  unfold WF at *; unfold F32.abs; simp only [consts.2.2.2.2.2.2.2.1]; split <;> omega
-
-theorem fma_wf (a b c : Nat) : WF (F32.fma a b c) := by
-  unfold F32.fma
-  repeat' split
-  all_goals first | exact qnan_wf | exact infB_wf _ | exact signBit_wf _ | exact roundPack_wf _ _ _
-
-theorem div_wf (a b : Nat) : WF (F32.div a b) := by
-  unfold F32.div
-  repeat' split
-  all_goals first | exact qnan_wf | exact infB_wf _ | exact signBit_wf _ | exact roundPack_wf _ _ _
-
 /-- the remainder of finite values (non-zero divisor of magnitude below 2^127) is finite and no larger than the divisor -/
 theorem fmod_fin (a b : Nat) (ha : Finite a) (hb : Finite b) (hb0 : toReal b ≠ 0) (hbfit : |toReal b| < (2:ℝ) ^ (127:ℤ)) :
     Finite (fmod a b) ∧ |toReal (fmod a b)| ≤ |toReal b| := by
